@@ -10,6 +10,8 @@ package main
 //	pickf <ns;vis,...> <configNs>                      pickFirstVisibleNamespace (hook)             -> namespace
 //	inb   <targetPort,...>                             real CDS of a sidecar with these service targets -> inbound cluster ports
 //	lst   <vip;port,...>                               real LDS of a sidecar, TCP services on the memory registry -> listener names
+//	drm   <id;time;name;ns;host;subsets;policy,...> <ns> <host>  setDestinationRules (hook): sort + mergeDestinationRule
+//	                                                   -> none | from=ids subsets=name@id,... policy=p
 
 import (
 	"fmt"
@@ -196,6 +198,46 @@ func (c *cmpSUT) apply2(f []string) (string, bool) {
 			by[p[0]] = svc
 		}
 		return wire.Enc(model.VerifC17PickFirstVisibleNamespace(model.NewPushContext(), by, wire.Dec(f[2]))), true
+	case "drm":
+		var cfgs []config.Config
+		idOf := map[string]string{}
+		for _, e := range elems(f[1]) {
+			p := fields(e)
+			spec := &networking.DestinationRule{Host: p[4]}
+			if p[5] != "-" {
+				for _, sn := range strings.Split(p[5], "+") {
+					spec.Subsets = append(spec.Subsets, &networking.Subset{Name: sn, Labels: map[string]string{"owner": p[0]}})
+				}
+			}
+			if p[6] != "0" {
+				spec.TrafficPolicy = &networking.TrafficPolicy{ConnectionPool: &networking.ConnectionPoolSettings{
+					Tcp: &networking.ConnectionPoolSettings_TCPSettings{MaxConnections: int32(atoi(p[6]))}}}
+			}
+			cfgs = append(cfgs, config.Config{Meta: config.Meta{GroupVersionKind: gvk.DestinationRule, Name: p[2], Namespace: p[3],
+				CreationTimestamp: timeOf(atoi(p[1])), ResourceVersion: "1"}, Spec: spec})
+			idOf[p[3]+"/"+p[2]] = p[0]
+		}
+		res := model.VerifC17MergeDestinationRules(mesh.DefaultMeshConfig(), cfgs, wire.Dec(f[2]), host.Name(wire.Dec(f[3])))
+		if len(res) == 0 {
+			return "none", true
+		}
+		var outs []string
+		for _, m := range res {
+			var from, subs []string
+			for _, nn := range m.GetFrom() {
+				from = append(from, idOf[nn.Namespace+"/"+nn.Name])
+			}
+			rule := m.GetRule().Spec.(*networking.DestinationRule)
+			for _, sb := range rule.Subsets {
+				subs = append(subs, sb.Name+"@"+sb.Labels["owner"])
+			}
+			pol := "0"
+			if rule.TrafficPolicy != nil {
+				pol = strconv.Itoa(int(rule.TrafficPolicy.GetConnectionPool().GetTcp().GetMaxConnections()))
+			}
+			outs = append(outs, "from="+joinElems(from)+" subsets="+joinElems(subs)+" policy="+pol)
+		}
+		return strings.Join(outs, " | "), true
 	case "vh":
 		return c.vh(f[1]), true
 	case "inb":
@@ -332,13 +374,48 @@ func (c *cmpSUT) lst(tok string) string {
 // ---------------------------------------------------------------- generator, second part
 
 var (
-	poolVH   = []string{"ext1.example.com", "ext2.example.com", "api.example.com", "db.example.com", "a.example.com", "zz.example.com", "b-1.example.com", "b.1.example.com", "*.wild.example.com"}
-	poolVip  = []string{"", "240.240.0.1", "240.240.0.2", "240.241.0.1"}
-	poolEFNs = []string{"istio-system", "default", "ns1"}
+	poolVH     = []string{"ext1.example.com", "ext2.example.com", "api.example.com", "db.example.com", "a.example.com", "zz.example.com", "b-1.example.com", "b.1.example.com", "*.wild.example.com"}
+	poolVip    = []string{"", "240.240.0.1", "240.240.0.2", "240.241.0.1"}
+	poolEFNs   = []string{"istio-system", "default", "ns1"}
+	poolDRHost = []string{"ext1.example.com", "ext2.example.com", "*.wild.example.com"}
 )
 
 func genCmpOp2(r *wire.Rng) []string {
-	switch r.Intn(8) {
+	switch r.Intn(9) {
+	case 7:
+		// DestinationRules (no workloadSelector, no exportTo): few timestamps, two namespaces, three hosts, overlapping
+		// subset names, some without a top-level traffic policy
+		seen := map[string]bool{}
+		var l []string
+		nt := 1 + r.Intn(3)
+		drNs := func() string { return poolNs[r.Intn(4)/3] } // mostly one namespace, so that several rules meet on a host
+		drHost := func() string {
+			if r.Chance(2, 3) {
+				return poolDRHost[0]
+			}
+			return wire.Pick(r, poolDRHost)
+		}
+		for i, n := 0, 1+r.Intn(9); i < n; i++ {
+			ns, name := drNs(), wire.Pick(r, []string{"a", "b", "ab", "a-b", "z", "dr"})
+			if seen[ns+"/"+name] {
+				continue
+			}
+			seen[ns+"/"+name] = true
+			var subs []string
+			for k, m := 0, r.Intn(4); k < m; k++ {
+				subs = append(subs, wire.Pick(r, []string{"v1", "v2", "v3", "canary"}))
+			}
+			ss := "-"
+			if len(subs) > 0 {
+				ss = strings.Join(subs, "+")
+			}
+			pol := "0"
+			if r.Chance(1, 2) {
+				pol = strconv.Itoa(100 + i)
+			}
+			l = append(l, encFields(strconv.Itoa(i), strconv.Itoa(r.Intn(nt)), name, ns, drHost(), ss, pol))
+		}
+		return []string{"drm", joinElems(l), wire.Enc(drNs()), wire.Enc(drHost())}
 	case 0:
 		// services: few timestamps/names/namespaces, several per (host, ns), some Kubernetes
 		n := r.Intn(9)
@@ -377,13 +454,24 @@ func genCmpOp2(r *wire.Rng) []string {
 		seen := map[string]bool{}
 		var l []string
 		nt := 1 + r.Intn(2)
-		for i, n := 0, r.Intn(9); i < n; i++ {
-			ns, name := wire.Pick(r, poolEFNs), wire.Pick(r, []string{"a", "b", "ab", "a-b", "z"})
+		n, names, zones := r.Intn(9), []string{"a", "b", "ab", "a-b", "z"}, true
+		if r.Chance(1, 4) {
+			// more than 12 filters reach the second sort (sort.Slice: insertion sort up to 12 elements, pdqsort - not
+			// stable - above). The model sorts with a stable insertion sort, so the two agree only where the comparator
+			// leaves no tie: the same representation of the creation time everywhere (zone 0).
+			n, names, zones = 16+r.Intn(14), []string{"a", "b", "ab", "a-b", "z", "c", "d", "e", "f", "g", "h", "a.b"}, false
+		}
+		for i := 0; i < n; i++ {
+			ns, name := wire.Pick(r, poolEFNs), wire.Pick(r, names)
 			if seen[ns+"/"+name] {
 				continue
 			}
 			seen[ns+"/"+name] = true
-			l = append(l, encFields(strconv.Itoa(i), ns, name, strconv.Itoa(r.Intn(3)-1), strconv.Itoa(r.Intn(nt)), strconv.Itoa(r.Intn(3)*r.Intn(2))))
+			zone := 0
+			if zones {
+				zone = r.Intn(3) * r.Intn(2)
+			}
+			l = append(l, encFields(strconv.Itoa(i), ns, name, strconv.Itoa(r.Intn(3)-1), strconv.Itoa(r.Intn(nt)), strconv.Itoa(zone)))
 		}
 		return []string{"ef", joinElems(l), wire.Enc(wire.Pick(r, poolEFNs))}
 	case 4:
